@@ -215,3 +215,49 @@ def r3(cx, rec):
 def r4(cx, rec):
     from rules import C16
     C16.r2(cx, rec)
+
+
+@TABLE.rule('5', 'K5b', 'integers are converted by one whole-text str::parse::<i64> (sign included): every value the encoder can write, '
+            'i64::MIN included, is read back', floor=1)
+def r5(cx, rec):
+    F = cx.F
+    ps = [f for f in F.user_fns() if f.path.startswith('bcodec::bdecoder::') and f.kind != 'Closure' and
+          f.locals[0]['ty'].startswith('std::result::Result<(i64,')]
+    P = C.one(ps, 'integer parser (returns Result<(i64, ..)>)')
+    n = 0
+    for bi, si, e in mirq.agg_sites(P, r'^std::result::Result$', 'Ok'):
+        t = e[4][0][1]
+        if not (t[0] == 'agg' and t[1] == 'tuple'):
+            continue
+        x = t[4][0][1]
+        n += 1
+        # peel error plumbing only: try(..), Result::or / map_err / ok_or(.., Err{..})
+        while True:
+            if x[0] == 'try':
+                x = x[1]
+            elif x[0] == 'call' and x[4].get('name') in ('or', 'map_err', 'or_else') and x[2]:
+                x = x[2][0]
+            else:
+                break
+        okp = x[0] == 'call' and x[4].get('name') == 'parse' and (x[4].get('gargs') or [''])[0] == 'i64'
+        src = show(x[2][0])[:80] if okp else show(x)[:80]
+        whole = okp and not any(y[0] == 'call' and y[4].get('name') in ('strip_prefix', 'trim_start_matches', 'trim_start', 'split_at', 'get', 'index', 'abs')
+                                for y in walk(x[2][0], inl=False))
+        rec.site(P, bi, 'value = %s' % show(x)[:100])
+        rec.need(okp and whole, 'int-conversion', P, bi,
+                 'the decoded integer is %s, not str::parse::<i64> of the whole digit text: values at the edge of the range '
+                 '(i64::MIN) that the encoder writes are not read back' % src)
+    rec.need(n >= 1, 'int-parser-shape', P, None, 'integer parser does not return Ok((value, raw))')
+
+
+@TABLE.rule('6', 'K4', 'the decoder cannot panic on anything the encoder writes (shared panic-site audit of C16)', floor=1)
+def r6(cx, rec):
+    from rules import C16
+    C16.r1(cx, rec)
+
+
+@TABLE.rule('7', 'K1', 'token scans run unadapted to their terminator (":" of a length prefix, "e" of an integer) and tell it from the end of '
+            'input: strings and integers of every length the encoder writes are read back (shared with C16)', floor=2)
+def r7(cx, rec):
+    from rules import C16
+    C16.scan_rules(cx, rec)
